@@ -445,8 +445,72 @@ impl Matrix {
 /// `admissible`: mandatory columns at most the real non-skipped rows (a constrained perfect
 /// matching exists); otherwise one more mandatory column than real rows (the panic branch).
 pub fn gen_matrix(r: &mut Rng, max_n: usize, admissible: bool) -> Matrix {
-    let nx = 1 + r.usize(max_n);
-    let ny = 1 + r.usize(max_n);
+    gen_matrix_sized(r, 1, max_n, admissible)
+}
+
+/// The shape caobab builds: square, one column per course place, `50000 - penalty` on all places of
+/// a chosen course and 0 elsewhere, trailing all-zero dummy rows, the first `num_min` places of each
+/// course mandatory, the places of cancelled courses (and as many dummy rows) skipped. Exact ties
+/// everywhere, 64 or more columns.
+pub fn gen_matrix_caobab(r: &mut Rng, min_places: usize) -> Matrix {
+    let mut sizes: Vec<(usize, usize)> = vec![];
+    let mut places = 0;
+    while places < min_places {
+        let mx = 3 + r.usize(4);
+        let mn = r.usize(3).min(mx);
+        sizes.push((mn, mx));
+        places += mx;
+    }
+    let k = sizes.len();
+    let dummies = 3 + r.usize(13);
+    let np = places - dummies;
+    let n = places;
+    let mut course_of = vec![];
+    let mut mand = vec![];
+    for (c, (mn, mx)) in sizes.iter().enumerate() {
+        for j in 0..*mx {
+            course_of.push(c);
+            mand.push(j < *mn);
+        }
+    }
+    let mut w = vec![0i32; n * n];
+    for p in 0..np {
+        let nch = 1 + r.usize(4);
+        for j in 0..nch {
+            let c = r.usize(k);
+            for y in 0..n {
+                if course_of[y] == c && w[p * n + y] == 0 {
+                    w[p * n + y] = 50000 - j as i32;
+                }
+            }
+        }
+    }
+    let dummy: Vec<bool> = (0..n).map(|x| x >= np).collect();
+    // cancel up to two courses: skip their places and as many (trailing) dummy rows
+    let mut skipy = vec![false; n];
+    let mut skipx = vec![false; n];
+    let mut skipped = 0;
+    for _ in 0..r.usize(3) {
+        let c = r.usize(k);
+        let cnt = (0..n).filter(|y| course_of[*y] == c && !skipy[*y]).count();
+        if skipped + cnt <= dummies {
+            for y in 0..n {
+                if course_of[y] == c {
+                    skipy[y] = true;
+                }
+            }
+            skipped += cnt;
+        }
+    }
+    for x in (n - skipped)..n {
+        skipx[x] = true;
+    }
+    Matrix { nx: n, ny: n, w, dummy, mand, skipx, skipy }
+}
+
+pub fn gen_matrix_sized(r: &mut Rng, min_n: usize, max_n: usize, admissible: bool) -> Matrix {
+    let nx = min_n + r.usize(max_n - min_n + 1);
+    let ny = min_n + r.usize(max_n - min_n + 1);
     let mut skipx = vec![false; nx];
     let mut skipy = vec![false; ny];
     let lo = nx.min(ny);
